@@ -2,6 +2,7 @@ package cmd
 
 import (
 	"context"
+	"regexp"
 	"sort"
 	"strconv"
 	"strings"
@@ -157,6 +158,19 @@ func (spm *spotMgr) spotlight(ctx context.Context, a *actor) error {
 	return err
 }
 
+// captured returns the text captured by the named group in the match m
+// of re (as returned by FindStringSubmatch) - not the line with the
+// match substituted, which is what ReplaceAllString yields when the
+// regexp does not span the entire line.
+func captured(re *regexp.Regexp, m []string, name string) string {
+	for i, n := range re.SubexpNames() {
+		if n == name {
+			return m[i]
+		}
+	}
+	return ""
+}
+
 // detectSignals parses a line produced by the spotlight to detect any
 // signal is contains. Detected signals are sent to the auChan.
 func (spm *spotMgr) detectSignals(ctx context.Context, a *actor, line string) {
@@ -173,7 +187,8 @@ func (spm *spotMgr) detectSignals(ctx context.Context, a *actor, line string) {
 			// No audience for this signal: don't even bother collecting the data.
 			continue
 		}
-		if !rp.re.MatchString(line) {
+		m := rp.re.FindStringSubmatch(line)
+		if m == nil {
 			if log.V(2) {
 				log.Infof(ctx, "signal %s re %q did not match %q", rp.name, rp.re.String(), line)
 			}
@@ -193,7 +208,7 @@ func (spm *spotMgr) detectSignals(ctx context.Context, a *actor, line string) {
 			// the auto-generated "now" timestamp.
 			ts = tsNow
 		case "ts_deltasecs":
-			logTime := rp.re.ReplaceAllString(line, "${ts_deltasecs}")
+			logTime := captured(rp.re, m, "ts_deltasecs")
 			delta, err := strconv.ParseFloat(logTime, 64)
 			if err != nil {
 				spm.logger.Logf(ctx, "signal %s: invalid second delta %q: %+v", rp.name, logTime, err)
@@ -202,7 +217,7 @@ func (spm *spotMgr) detectSignals(ctx context.Context, a *actor, line string) {
 			ts = epoch.Add(time.Duration(delta * float64(time.Second)))
 		default:
 			var err error
-			logTime := rp.re.ReplaceAllString(line, "${"+rp.reGroup+"}")
+			logTime := captured(rp.re, m, rp.reGroup)
 			ts, err = time.Parse(rp.timeLayout, logTime)
 			if err != nil {
 				spm.logger.Logf(ctx, "signal %s: invalid log timestamp %q in %q: %+v", rp.name, logTime, line, err)
@@ -222,9 +237,9 @@ func (spm *spotMgr) detectSignals(ctx context.Context, a *actor, line string) {
 		// Parse the data.
 		switch rp.typ {
 		case sigTypEvent:
-			valHolder.val = rp.re.ReplaceAllString(line, "${event}")
+			valHolder.val = captured(rp.re, m, "event")
 		case sigTypScalar:
-			valS := rp.re.ReplaceAllString(line, "${scalar}")
+			valS := captured(rp.re, m, "scalar")
 			x, err := strconv.ParseFloat(valS, 64)
 			if err != nil {
 				spm.logger.Logf(ctx, "signal %s: invalid scalar %q in %q: %+v", rp.name, valS, line, err)
@@ -232,7 +247,7 @@ func (spm *spotMgr) detectSignals(ctx context.Context, a *actor, line string) {
 			}
 			valHolder.val = x
 		case sigTypDelta:
-			curValS := rp.re.ReplaceAllString(line, "${delta}")
+			curValS := captured(rp.re, m, "delta")
 			curVal, err := strconv.ParseFloat(curValS, 64)
 			if err != nil {
 				spm.logger.Logf(ctx, "signal %s: error parsing %q for delta: %+v", rp.name, curValS, err)
